@@ -51,7 +51,9 @@ type VC struct {
 	curPos  token.Position
 	tags    []string
 	tagsFn  []string
+	effTags []string
 	Replay  *ReplayCtx
+	traceCell, tlenCell *Cell // ghost: the sequence of effectful calls made directly by the unit under verification
 	RegexUses []RegexUse // matches(x, regexVar) occurrences (for replaying language lemmas)
 	pureTerm map[string]string
 	axioms  []string
@@ -397,4 +399,56 @@ func elemType(t types.Type) types.Type {
 		return u.Elem()
 	}
 	return nil
+}
+
+
+// traceCells returns the ghost cells of the effect trace, creating them on first use.
+func (vc *VC) traceCells(st *State) (*Cell, *Cell) {
+	if vc.traceCell == nil {
+		vc.n++
+		vc.traceCell = &Cell{Name: "trace", Sort: "(Array Int Event)", id: vc.n}
+		vc.n++
+		vc.tlenCell = &Cell{Name: "tlen", Sort: "Int", id: vc.n}
+	}
+	if _, ok := st.cells[vc.traceCell]; !ok {
+		st.cells[vc.traceCell] = vc.declareConst("trace0", "(Array Int Event)")
+		st.cells[vc.tlenCell] = vc.declareConst("tlen0", "Int")
+		vc.fact("(>= tlen0 0)")
+	}
+	return vc.traceCell, vc.tlenCell
+}
+
+// effectTag is the constant identifying an effectful operation in trace events.
+func (vc *VC) effectTag(key string) string {
+	name := "eff_" + sanitize(key)
+	if !vc.declOf[name] {
+		vc.declareConst(name, "Int")
+		vc.effTags = append(vc.effTags, name)
+		for _, o := range vc.effTags[:len(vc.effTags)-1] {
+			vc.fact(fmt.Sprintf("(not (= %s %s))", name, o))
+		}
+	}
+	return name
+}
+
+// logEffect appends one event to the trace.
+func (vc *VC) logEffect(st *State, key string, recv string, strs []string, err string) {
+	tc, lc := vc.traceCells(st)
+	s1, s2 := "\"\"", "\"\""
+	if len(strs) > 0 {
+		s1 = strs[0]
+	}
+	if len(strs) > 1 {
+		s2 = strs[1]
+	}
+	if recv == "" {
+		recv = "inil"
+	}
+	if err == "" {
+		err = "enil"
+	}
+	ev := fmt.Sprintf("(mk_ev %s %s %s %s %s)", vc.effectTag(key), recv, s1, s2, err)
+	ln := st.cells[lc]
+	st.cells[tc] = vc.define("trace", "(Array Int Event)", fmt.Sprintf("(store %s %s %s)", st.cells[tc], ln, ev))
+	st.cells[lc] = vc.define("tlen", "Int", fmt.Sprintf("(+ %s 1)", ln))
 }
